@@ -85,6 +85,8 @@ def file_content(kind, ident):
         return "int main( { return 0; }\n"
     if kind == "generr":  # accepted by the parser, rejected only while generating code
         return "int before_%s(void) { return 1; }\nint main(void) { 1=2; return 0; }\n" % ident
+    if kind == "needcfg":  # compiles only if "config.h" is found from inc/api.h -- which, alone, it is not: the header lies in ANOTHER unit's directory
+        return '#include "inc/api.h"\nint fcfg_%s(void) { return CFG; }\n' % ident
     if kind == "segv":    # kills cc1 for real (stack overflow)
         return "int x = " + "(" * 120000 + "1" + ")" * 120000 + ";\n"
     if kind == "asm":
@@ -101,7 +103,7 @@ def file_content(kind, ident):
 C_KINDS = ["valid", "valid", "valid3", "valid2", "tokerr", "pperr", "parseerr", "generr", "segv", "missing", "dir"]
 S_KINDS = ["asm", "asm", "asmbad", "missing"]
 O_KINDS = ["obj", "obj", "objbad", "missing"]
-FAILING_KINDS = {"tokerr", "pperr", "parseerr", "generr", "segv", "missing", "dir", "asmbad", "objbad"}
+FAILING_KINDS = {"tokerr", "pperr", "parseerr", "generr", "segv", "missing", "dir", "asmbad", "objbad", "needcfg"}
 
 
 def gen_scenario(seed, opts):
@@ -187,6 +189,11 @@ def gen_scenario(seed, opts):
             stem = os.path.basename(name).rsplit(".", 1)[0]
             if any(stem == os.path.basename(n).rsplit(".", 1)[0] for n, _ in inputs) and not (mode in ("link", "E", "M") and r.below(2)):
                 continue
+            donors = [n for n, k2 in inputs if n.endswith(".c") and os.path.dirname(n) not in ("", ".") and os.path.dirname(n) != os.path.dirname(name) and ".." not in n]
+            if ext == "c" and not xlang and donors and kind in ("valid", "valid2", "pperr") and r.below(4) == 0 and ".." not in name:
+                kind = "needcfg"
+                files[os.path.join(os.path.dirname(r.pick(donors)), "config.h")] = "cfgheader"
+                files[os.path.join(os.path.dirname(name), "inc/api.h")] = "apiheader"
             inputs.append((name, kind))
             all_inputs.append((name, kind))
         use_o = False
@@ -271,7 +278,7 @@ def gen_scenario(seed, opts):
             so_kind = "devfull"
         elif r.below(25) == 0:
             so_kind = "closed"      # descriptor 1 is closed: the first file the process opens becomes "standard output"
-        inv = {"argv": argv, "stdout": so_kind, "stderr": "devfull" if r.below(30) == 0 else "file", "faults": []}
+        inv = {"argv": argv, "stdout": so_kind, "stderr": r.pick(["devfull", "brokenpipe"]) if r.below(20) == 0 else "file", "faults": []}
         if so_kind == "file" and r.below(25) == 0:
             inv["stdin"] = "closed"  # descriptor 0 is free: the first open() of every process returns 0
         if r.below(6) == 0:
@@ -585,7 +592,7 @@ class Machine:
                 os.makedirs(p, exist_ok=True)
                 continue
             ident = "".join(c for c in name if c.isalnum())
-            data = "#!/bin/sh\nexit 0\n" if kind == "script" else "#define COMMON 7\n" if kind == "header" else "#define EXTRA 11\n" if kind == "header2" else "keep\n" if kind == "text" else file_content(kind, ident)
+            data = "#define CFG 7\n" if kind == "cfgheader" else '#include "config.h"\n' if kind == "apiheader" else "#!/bin/sh\nexit 0\n" if kind == "script" else "#define COMMON 7\n" if kind == "header" else "#define EXTRA 11\n" if kind == "header2" else "keep\n" if kind == "text" else file_content(kind, ident)
             with open(p, "w") as f:
                 f.write(data)
             if kind == "script":
@@ -927,7 +934,7 @@ class Machine:
                 inv = self.scn["invocations"][i]
                 self.inv_state[i] = {"nfork": 0, "count": {}, "children": [], "ended": [], "fired": [], "temps": [], "waits": [], "exits": [], "opens": [], "unlinks": [], "orphans": [], "created": []}
                 so = open(os.path.join(self.wdir, "stdout.%d" % i), "wb") if inv["stdout"] != "devfull" else open("/dev/full", "wb")
-                se = open(os.path.join(self.wdir, "stderr.%d" % i), "wb") if inv.get("stderr", "file") == "file" else open("/dev/full", "wb")
+                se = open(os.path.join(self.wdir, "stderr.%d" % i), "wb") if inv.get("stderr", "file") == "file" else open("/dev/full", "wb") if inv["stderr"] == "devfull" else broken_pipe()
                 if inv.get("stderr", "file") != "file":
                     open(os.path.join(self.wdir, "stderr.%d" % i), "wb").close()
                 outs[i] = (so, se)
@@ -1000,6 +1007,13 @@ class Machine:
             else:
                 res["stdout"][i] = None
         return res
+
+
+def broken_pipe():
+    """the write end of a pipe nobody reads any more (`cc ... 2>&1 | head`): whoever writes to it gets SIGPIPE"""
+    rd, wr = os.pipe()
+    os.close(rd)
+    return os.fdopen(wr, "wb")
 
 
 def close_stdout():
@@ -1437,6 +1451,12 @@ def check(env, wdir, scn, res, solo, refs, which):
             t = m["out"] or "a.out"
             if not t.startswith("/") and res["before"].get(t) != res["after"].get(t):
                 v.append(("O2-output-of-unstarted-unit-touched", i, "the linker was never started, yet %s changed" % t))
+        # O4d units are compiled independently of each other: a source that does not compile alone (its header lies in another unit's
+        # directory) does not compile in company either
+        for tu in m["tus"]:
+            if tu["cc1"] and scn["files"].get(tu["input"]) == "needcfg" and any(lab == tu["cc1"] and how.startswith(("after-exit-0", "after-_exit-0")) for lab, how in st["ended"]):
+                if reference_asm(env, wdir, scn, tu["input"], compile_flags(inv["argv"]), MODEL_CACHE) is None:
+                    v.append(("O4-unit-depends-on-other-units", i, "%s does not compile alone (config.h is not on its search path), yet cc1 accepted it in this command" % tu["input"]))
         # O4b a unit whose own steps all succeeded has its output, whatever happens to the units after it
         if m["mode"] in ("S", "c") and not m["refused"]:
             started_l = set(c["label"] for c in st["children"])
@@ -1657,7 +1677,7 @@ def describe(scn):
     for n in sorted(scn["pre"]):
         out.append("  pre-existing %s" % n)
     for i, inv in enumerate(scn["invocations"]):
-        out.append("  inv%d: chibicc %s%s" % (i, " ".join(inv["argv"]), (" > /dev/full" if inv["stdout"] == "devfull" else " >&-" if inv["stdout"] == "closed" else "") + (" <&-" if inv.get("stdin") == "closed" else "") + (" [SIGCHLD ignored]" if inv.get("sigchld") == "ignored" else "") + (" [argv0=chibicc via PATH]" if inv.get("argv0") == "bare" else "") + (" 2> /dev/full" if inv.get("stderr") == "devfull" else "")))
+        out.append("  inv%d: chibicc %s%s" % (i, " ".join(inv["argv"]), (" > /dev/full" if inv["stdout"] == "devfull" else " >&-" if inv["stdout"] == "closed" else "") + (" <&-" if inv.get("stdin") == "closed" else "") + (" [SIGCHLD ignored]" if inv.get("sigchld") == "ignored" else "") + (" [argv0=chibicc via PATH]" if inv.get("argv0") == "bare" else "") + (" 2> /dev/full" if inv.get("stderr") == "devfull" else " 2>&1 | true" if inv.get("stderr") == "brokenpipe" else "")))
         for f in inv["faults"]:
             out.append("        fault: %s" % json.dumps(f, sort_keys=True))
     s = scn.get("sched", {})
